@@ -23,6 +23,7 @@ import (
 
 	"github.com/rs/zerolog/diode"
 	"github.com/rs/zerolog/zzverif/vsched"
+	"github.com/rs/zerolog/zzverif/vsync"
 )
 
 type Script struct {
@@ -250,6 +251,13 @@ func (r *run) quiesce(final bool) {
 	}
 	st := r.state()
 	e := ev{"a": "Quiesce", "mode": r.sc.Mode, "cg": c.Label, "cen": vsched.CanRun(c), "cancelled": r.cancelled, "final": final}
+	// how many registered waiters the most recent Broadcast found, if a producer issued it (-1 otherwise): the recorded
+	// lost wake-up is a producer's broadcast that finds NOBODY registered, with nothing happening afterwards
+	pbwoke := -1
+	if strings.HasPrefix(vsync.LastBroadcastBy, "P") {
+		pbwoke = vsync.LastBroadcastN
+	}
+	e["pbwoke"] = pbwoke
 	if seqs, ok := st["seqs"].([]int64); ok && len(seqs) > 0 {
 		ridx := st["ridx"].(int64)
 		s := seqs[int(ridx)%len(seqs)]
@@ -271,6 +279,10 @@ func (r *run) maybeQuiesce() {
 
 func play(sc Script) (hung bool) {
 	vsched.Reset()
+	for k := range vsync.LastBroadcastWoke {
+		delete(vsync.LastBroadcastWoke, k)
+	}
+	vsync.LastBroadcastBy, vsync.LastBroadcastN = "", 0
 	curObs = curObs[:0]
 	r := &run{sc: sc, threads: map[string]*vsched.G{}, inWrite: map[string]bool{}, pdone: map[string]bool{}}
 	obs(ev{"a": "Reset", "id": sc.ID, "N": sc.N, "P": sc.P, "W": sc.W, "mode": sc.Mode, "block": sc.Block})
